@@ -15,6 +15,7 @@
 package ggql
 
 import (
+	"math"
 	"strconv"
 )
 
@@ -41,7 +42,12 @@ func (*floatScalar) CoerceIn(v interface{}) (interface{}, error) {
 	case nil:
 		// remains nil
 	case float64:
-		v = float32(tv)
+		if -math.MaxFloat32 <= tv && tv <= math.MaxFloat32 {
+			v = float32(tv)
+		} else { // out of range, infinite or NaN
+			v = nil
+			err = newCoerceErr(tv, "Float")
+		}
 	case float32:
 		// ok as is
 	case int32:
